@@ -59,7 +59,17 @@ func runC10(w *World, r *Report) {
 	r.Rule("handoff", "pool buffers are not touched between hand-off and re-acquisition; reset and returned exactly once", 2)
 	r.Rule("errpath", "a read failure is published once and never hands over a partial frame", 1)
 	r.Rule("owns-memory", "nothing the parser returns aliases the pool buffer (the C12 may-alias rule, re-decided here)", 100)
-	r.Rule("roles", "one reader, one kind of parser, fixed senders/receivers of the pool and Inbound channels", 6)
+	r.Rule("roles", "one reader, one kind of parser, fixed senders/receivers of the pool and Inbound channels", 7)
+	r.Rule("reject", "the parser entry point refuses a frame only for structural reasons (short input, failed child, unknown code) or reviewed rejections by value", 1)
+	{
+		r2 := NewReport(r.Prop, r.Tier)
+		rejectRule(w, r2, "reject", func(pkg string) bool { return pkg == "openflow13" })
+		for _, o := range r2.Obs {
+			if o.Subject == "openflow13.Parse" {
+				r.Add(o)
+			}
+		}
+	}
 	r.Rule("pool-disjoint", "every buffer put into the pool has backing storage of its own", 1)
 	so, miss := w.streamObjs()
 	if miss != "" {
@@ -503,6 +513,9 @@ func runC10(w *World, r *Report) {
 		{so.poolEmpty, false, map[*FuncInfo]bool{so.inbound: true}, "receivers of the empty pool"},
 		{so.poolEmpty, true, map[*FuncInfo]bool{so.parse: true, npool: true}, "senders on the empty pool"},
 		{so.errorF, true, map[*FuncInfo]bool{so.inbound: true}, "senders on Error"},
+		// what was delivered belongs to the consumer: a receive inside the library (a drain at shutdown)
+		// throws away messages of frames that had arrived complete
+		{so.inboundF, false, map[*FuncInfo]bool{}, "receivers of Inbound inside the library (none)"},
 	}
 	// a helper that only functions of a role call (and that is never started as a goroutine) runs on that
 	// role's goroutine: it belongs to the role
